@@ -799,6 +799,15 @@ pub fn pool_job(seed: u64, k: usize, c: &Corpus) -> Job {
             }
         }
         cmdline::draw_knobs(&mut rng, &mut spec);
+        if rng.chance(1, 12) {
+            // an output whose directory does not exist (the write fails after a
+            // good assembly: what the failure says must not depend on the
+            // environment either), mostly as the last group
+            let n = spec.groups.len();
+            let gi = if rng.chance(2, 3) { n - 1 } else { 0 };
+            spec.groups[gi].out = Some(rng.pick(&["nodir/out.bin", "nodir/deeper/out.txt", "prog.asm/out.bin"]).to_string());
+            spec.groups[gi].print = false;
+        }
         let mut job = Job::from_spec(&format!("genprog:{}:{}", root, k), disk, spec);
         if root != "on_std.asm" && rng.chance(1, 8) {
             // a host that registers no built-in library at all (the
@@ -934,6 +943,21 @@ pub fn reference_record(job: &Job, tmpdir: &str) -> Option<Record> {
 pub fn build_realfs_plan(rng: &mut Rng, seed: u64, c: &Corpus) -> SimPlan {
     let mut jobs: Vec<Job> = Vec::new();
     let mut tries = 0;
+    if rng.chance(1, 6) {
+        // one untouched tree assembled two or three times with different
+        // `-d` values into the same output file: same size, other bytes
+        let mut disk = crate::disk::Disk::new(corpus::PROJ);
+        disk.add_file("defs.asm", format!("val = 0\nother = 1\n#d8 val, val + {}, 0x55\n#d16 other\n", rng.below(9)).into_bytes());
+        let fmt = *rng.pick(&["binary", "hexstr", "annotated", "intelhex", "binary"]);
+        for _ in 0..rng.range(2, 3) {
+            let mut spec = Spec::simple("defs.asm");
+            spec.quiet = true;
+            spec.defines = vec![format!("val={}", rng.range(1, 9)), format!("other={}", rng.range(1, 9))];
+            spec.groups = vec![Group { format: Some(fmt.to_string()), out: Some("out.bin".to_string()), print: false }];
+            jobs.push(Job::from_spec("genprog:defs.asm:redefined", disk.clone(), spec));
+        }
+        tries = 40;
+    }
     while jobs.len() < 2 && tries < 40 {
         tries += 1;
         let a = pool_job(seed, rng.below(POOL), c);
@@ -949,6 +973,46 @@ pub fn build_realfs_plan(rng: &mut Rng, seed: u64, c: &Corpus) -> SimPlan {
                     variant.disk.add_file(&sa.roots[0], d.clone());
                     variant.name = format!("collision-same-name({} <- {})", a.name, b.name);
                     jobs.push(a.clone());
+                    if rng.chance(1, 2) {
+                        // the same tree assembled again with another command
+                        // line into the same output names: no input changes,
+                        // the outputs must
+                        let mut other = a.clone();
+                        let mut spec = sa.clone();
+                        let what = match rng.below(4) {
+                            0 if !spec.defines.is_empty() => {
+                                let d = spec.defines[0].clone();
+                                let name = d.split('=').next().unwrap_or("x").to_string();
+                                spec.defines[0] = format!("{}={}", name, rng.range(10, 99));
+                                "define"
+                            }
+                            1 => {
+                                let g = spec.groups.len().saturating_sub(1);
+                                if let Some(gr) = spec.groups.get_mut(g) {
+                                    if gr.out.is_none() && !gr.print {
+                                        gr.out = Some("retarget.out".to_string());
+                                    }
+                                    gr.format = Some(rng.pick(&["hexstr", "binstr", "annotated", "hexdump", "symbols", "binary"]).to_string());
+                                }
+                                "format"
+                            }
+                            2 => {
+                                spec.no_opt_static = !spec.no_opt_static;
+                                spec.quiet = !spec.quiet;
+                                "knobs"
+                            }
+                            _ => {
+                                spec.groups.reverse();
+                                "group-order"
+                            }
+                        };
+                        other.argv = spec.render();
+                        other.spec = Some(spec);
+                        other.name = format!("retargeted[{}]({})", what, a.name);
+                        if crate::procsim::materialisable(&other).is_ok() {
+                            jobs.push(other);
+                        }
+                    }
                     jobs.push(variant);
                     if rng.chance(1, 2) {
                         jobs.push(a.clone());
